@@ -11,7 +11,7 @@ from ..tlaval import load_dump
 from . import pipeline
 from .pipeline import T2, cfg_rec, fparams, plain
 
-INV = ["DatasetUntouched", "HistoryIndependence", "OneFrameScene", "GtCountsAdd", "OrderIndependence", "SceneApWithinUnit", "ResultsPartition", "GTConservation"]
+INV = ["AnalyzerCounts", "DatasetUntouched", "HistoryIndependence", "OneFrameScene", "GtCountsAdd", "OrderIndependence", "SceneApWithinUnit", "ResultsPartition", "GTConservation"]
 
 
 def o(x, y, label, conf=100, pts=5):
